@@ -49,6 +49,7 @@ def ordinary_bytes(n, ident):
 TERMINATOR_LENGTHS = {
     "jmp": (2, 5), "jcc": (2, 6), "call": (5,), "ret": (1, 3), "ijmp": (2, 3, 6, 7), "icall": (2, 3, 6, 7),
     "sys": (2,),
+    "rcall": (2, 3),
 }
 TERMINATOR_BYTES = {
     ("jmp", 2): b"\xeb\x00", ("jmp", 5): b"\xe9\x00\x00\x00\x00",
@@ -60,6 +61,7 @@ TERMINATOR_BYTES = {
     ("icall", 2): b"\xff\xd0", ("icall", 3): b"\xff\x50\x08", ("icall", 6): b"\xff\x90\x00\x00\x00\x00",
     ("icall", 7): b"\xff\x14\x25\x00\x00\x00\x00",
     ("sys", 2): b"\x0f\x05",
+    ("rcall", 2): b"\xff\xd0", ("rcall", 3): b"\xff\x50\x08",
 }
 
 
@@ -70,6 +72,7 @@ def _le32(v):
 ARM64_BYTES = {
     "jmp": _le32(0x14000000), "jcc": _le32(0x54000001), "call": _le32(0x94000000), "ret": _le32(0xD65F03C0),
     "ijmp": _le32(0xD61F0020), "icall": _le32(0xD63F0020), "sys": _le32(0xD4000001),
+    "rcall": _le32(0xD63F0020),
 }
 
 
@@ -253,7 +256,9 @@ class Scenario:
             bi = blk.byte_interval
             boff = 0
             for a in atoms:
-                if a.target is not None and spec.get("isa") == "arm64":
+                if a.kind == "rcall":
+                    pass  # a register/memory operand: no symbolic expression
+                elif a.target is not None and spec.get("isa") == "arm64":
                     # the operand of a fixed-width instruction is recorded at the instruction's first byte
                     expr = gtirb.SymAddrConst(0, self.symbols[a.target])
                     bi.symbolic_expressions[blk.offset + boff] = expr
